@@ -33,6 +33,7 @@ class Ctx:
             self.verdicts = P.stage_verdicts(self.ws, self.ds)
             self.xl = P.stage_xlate(self.ws, self.verdicts['dumped'])
             self.ob = P.stage_obligations(self.ws, self.ds, self.verdicts, self.xl)
+            self.beh = P.stage_behaviour(self.ws, self.ds, self.verdicts, self.xl)
         finally:
             self.ws.unlock()
         self.by_name = {d['name']: d for d in self.ds}
@@ -126,11 +127,57 @@ def write_replay(pid, payload):
     return path
 
 
+KIND_OF_OP = {'G': 'get', 'W': 'with', 'S': 'set'}
+
+
+def beh_selected(ctx, pid, m):
+    """does behavioural mismatch m concern property pid?"""
+    d = ctx.by_name[m['decl']]
+    if m.get('what') == 'model output missing':
+        return True
+    if m['what'].startswith('dev and release') and pid == 'C16':
+        return True
+    if m['what'].startswith('Option<enum>'):
+        return pid == 'C08'
+    if m['op'] == 'R':
+        return pid in ('C06', 'C16') or (pid == 'C11' and d['base'] not in D.NATIVE)
+    f = [x for x in d['fields'] if x['name'] == m['field']][0]
+    sel = SELECT.get(pid)
+    return bool(sel and sel(d, KIND_OF_OP[m['op']], f))
+
+
+def directed_search(ctx, d, label):
+    """look for a concrete input on which the real accessor named by `label` differs from Spec.v"""
+    import random
+    from . import cases
+    kind, f = field_of(d, label)
+    if f is None or kind not in ('get', 'with', 'set'):
+        return None
+    # 1. something the behavioural stage already found
+    for m in ctx.beh['mismatches']:
+        if m['decl'] == d['name'] and m.get('field') == f['name'] and KIND_OF_OP.get(m.get('op')) == kind \
+                and 'specification' in m['what']:
+            return m
+    # 2. directed / exhaustive inputs for this accessor
+    rng = random.Random('search|%s|%s|%s' % (ctx.seed, d['name'], label))
+    sc = cases.gen_field_cases(d, f, kind, ctx.by_name, rng)
+    if not sc:
+        return None
+    ctx.ws.lock()
+    try:
+        res = P.behaviour_compare(ctx.ws, [d], {d['name']: sc}, ctx.by_name, ctx.xl, 'search', max_mism=1)
+    finally:
+        ctx.ws.unlock()
+    for m in res['mismatches']:
+        if 'specification' in m.get('what', ''):
+            return m
+    return None
+
+
 def check_property(pid, tier, seed):
     t0 = time.time()
     prop = prop_text(pid)
     violations = []   # (replay_path, suffix)
-    notes = []
     # 1. the theorem layer
     hits = T.scan_sources()
     ctx = Ctx(tier, seed)
@@ -150,13 +197,31 @@ def check_property(pid, tier, seed):
     # 2. per-program obligations on the real expansions
     obs = collect(ctx, pid)
     failing = [o for o in obs if not o['ok']]
-    for o in failing[:20]:
+    reported = set()
+    for o in failing[:4]:
         d = ctx.by_name[o['decl']]
+        w = directed_search(ctx, d, o['label'])
         payload = {'property': pid, 'kind': 'obligation', 'obligation': '%s %s' % (o['decl'], o['label']),
                    'declaration': '\n'.join(D.rust_decl(d)), 'decl_json': d,
-                   'note': 'the reflective check of the real expansion against Spec.v fails (see .work/<key>/coq)'}
-        violations.append((write_replay(pid, payload), ' no-failing-input-found'))
-    # 3. evidence
+                   'deps': [ctx.by_name[n] for n in sorted(P.deps_of(d))],
+                   'note': 'the reflective check of the real expansion against Spec.v fails'}
+        if w is not None:
+            payload['witness'] = w
+            violations.append((write_replay(pid, payload), ''))
+            reported.add((w['decl'], w.get('field'), w.get('op')))
+        else:
+            violations.append((write_replay(pid, payload), ' no-failing-input-found'))
+    # 3. behavioural correspondence (compiled code, both profiles, vs eval of the translation vs Spec.v)
+    bm = [m for m in ctx.beh['mismatches'] if beh_selected(ctx, pid, m)]
+    for m in bm[:4]:
+        if (m['decl'], m.get('field'), m.get('op')) in reported:
+            continue
+        d = ctx.by_name[m['decl']]
+        payload = {'property': pid, 'kind': 'behaviour', 'declaration': '\n'.join(D.rust_decl(d)), 'decl_json': d,
+                   'deps': [ctx.by_name[n] for n in sorted(P.deps_of(d))], 'witness': m}
+        concrete = 'specification' in m.get('what', '') or m.get('what', '').startswith(('dev and release', 'Option<enum>'))
+        violations.append((write_replay(pid, payload), '' if concrete else ' no-failing-input-found'))
+    # 4. evidence
     n_ob = len(thms) + len(obs)
     n_ok = thm_ok + len(obs) - len(failing)
     shapes = set(o['shape'] for o in obs)
@@ -184,6 +249,9 @@ def check_property(pid, tier, seed):
             'samples': samples,
             'corpus': {'declarations': len(ctx.ds), 'accepted': len(ctx.verdicts['accepted']),
                        'rejected': len(ctx.verdicts['rejected'])},
+            'behavioural_tie': {k: ctx.beh[k] for k in ('programs', 'scenarios', 'ops', 'stats', 'distinct', 'n_mismatches')},
+            'behavioural_tie_note': 'whole-corpus differential run (dev and release binaries vs eval checked/unchecked vs Spec.v); '
+                                    'validates Expr.v and the translator; not a proof',
             'repo_tree': ctx.ws.repo_hash[:16],
         },
         'assumptions': ['see coverage.trusted_base'],
@@ -200,10 +268,51 @@ def check_property(pid, tier, seed):
     return 1 if violations else 0
 
 
+def replay(path):
+    """rebuild the declaration of a replay file from the current tree and re-run its witness"""
+    j = json.load(open(path))
+    if 'decl_json' not in j:
+        print('replay: %s names %s; nothing executable to re-run' % (path, j.get('theorem') or j.get('kind')))
+        return 0
+    d = j['decl_json']
+    ds = list(j.get('deps', [])) + [d]
+    P.ensure_framework()
+    ws = P.Workspace('replay', 0, extra=hashlib.sha256(json.dumps(ds, sort_keys=True).encode()).hexdigest())
+    ws.lock()
+    try:
+        json.dump(ds, open(ws.path('corpus.json'), 'w'))
+        ws.mark('corpus', {'n': len(ds)})
+        v = P.stage_verdicts(ws, ds)
+        print('verdict: accepted=%s rejected=%s' % (d['name'] in v['accepted'], json.dumps(v['rejected'].get(d['name']))))
+        if d['kind'] != 'bitfield' or d['name'] not in v['accepted']:
+            return 0
+        xl = P.stage_xlate(ws, v['dumped'])
+        ob = P.stage_obligations(ws, ds, v, xl)
+        for label, ok in ob['obligations'].get(d['name'], []):
+            if not ok:
+                print('obligation fails: %s %s' % (d['name'], label))
+        w = j.get('witness')
+        if w and 'ops' in w:
+            by_name = {x['name']: x for x in ds}
+            todo = [x for x in ds if x['kind'] == 'bitfield' and x['name'] in v['accepted']]
+            P.build_runner(ws, todo, by_name)
+            sc = [(w['r0'], [tuple(o) for o in w['ops']])]
+            res = P.behaviour_compare(ws, [d], {d['name']: sc}, by_name, xl, 'replay')
+            if res['mismatches']:
+                print('REPRODUCED: %s' % json.dumps(res['mismatches'][0]))
+                return 1
+            print('NOT REPRODUCED: the recorded scenario now agrees with Spec.v in both profiles')
+    finally:
+        ws.unlock()
+    return 0
+
+
 def main(argv):
     if not argv:
         print(__doc__ or 'usage: check <Cxx> [--tier quick|thorough] | setup')
         return 2
+    if argv[0] == 'replay':
+        return replay(argv[1])
     if argv[0] == 'setup':
         P.ensure_framework()
         T.assumptions()
